@@ -366,3 +366,148 @@ Proof.
   assert (Hne : c_hold c <> 0) by lia.
   exists c. split; [exact Hc|]. split; [exact Hne|]. apply held_client_survives_enter; assumption.
 Qed.
+
+(* ---- over all histories: p.now never runs ahead of the injected clock ------- *)
+(* clock, now and configuration: what the operations under cis.lock leave alone *)
+Definition scal (st : state) := (st_clock st, st_now st, st_cfg st).
+
+Lemma op_section_scal : forall o ph orc c st cfh sfh,
+  match o with
+  | OExchangeId _ _ | OCreateSession _ _ | ODestroySession _ | ODestroyClientid _ => ph <> PhNone
+  | _ => True
+  end ->
+  scal (sr_st (op_section o ph orc c st cfh sfh)) = scal st.
+Proof.
+  intros o ph orc c st cfh sfh Hs. destruct ph.
+  - destruct o; cbn [op_section]; try (exfalso; apply Hs; reflexivity);
+      unfold op_open_begin, op_open_downgrade, op_close, op_lock, op_lock_run, op_lockt, op_locku,
+             io_begin, op_free_stateid, done; repeat break_match; cbn [sr_st]; reflexivity.
+  - cbn [op_section]. destruct o; try (unfold done; cbn [sr_st]; reflexivity). unfold op_open_end. repeat break_match; cbn [sr_st]; reflexivity.
+  - cbn [op_section sr_st]. reflexivity.
+  - cbn [op_section sr_st]. reflexivity.
+  - cbn [op_section]. unfold io_end_reg. repeat break_match; cbn [sr_st]; reflexivity.
+  - cbn [op_section sr_st]. reflexivity.
+Qed.
+
+Lemma enter_scal : forall st,
+  scal (fst (enter st)) = (st_clock st, N.max (st_now st) (st_clock st), st_cfg st).
+Proof.
+  intros st. unfold scal. rewrite enter_now, enter_cfg. unfold enter.
+  destruct (expire_list_scalars (st_idle (if st_now st <? st_clock st then set_now st (st_clock st) else st))
+                                (if st_now st <? st_clock st then set_now st (st_clock st) else st)) as [_ [_ C]].
+  rewrite C. destruct (st_now st <? st_clock st); reflexivity.
+Qed.
+
+Lemma empty_and_remove_scal : forall id st, scal (fst (empty_and_remove id st)) = scal st.
+Proof. intros id st. destruct (empty_and_remove_scalars id st) as [A [B C]]. unfold scal. congruence. Qed.
+
+Lemma cs_finish_scal : forall cid sq st, scal (fst (cs_finish cid sq st)) = scal st.
+Proof. intros. unfold cs_finish, touch. repeat break_match; reflexivity. Qed.
+
+Lemma touch_scal : forall id st, scal (touch id st) = scal st.
+Proof. intros. unfold touch. repeat break_match; reflexivity. Qed.
+
+Lemma op_exchange_id_scal : forall o v st, scal (fst (fst (op_exchange_id o v st))) = scal (fst (enter st)).
+Proof. intros. unfold op_exchange_id. destruct (enter st) as [st1 outs]. cbn [fst]. repeat break_match; reflexivity. Qed.
+
+Lemma op_create_session_scal : forall c s st, scal (fst (fst (op_create_session c s st))) = scal (fst (enter st)).
+Proof.
+  intros. unfold op_create_session. destruct (enter st) as [st1 outs]. cbn [fst].
+  destruct (find_client c (st_clients st1)) as [cl|]; [|reflexivity].
+  destruct (s =? c_seq cl); [reflexivity|]. destruct (s =? (c_seq cl + 1) mod u32); [|reflexivity].
+  destruct (find _ (st_clients st1)) as [x|].
+  - destruct (0 <? c_hold x); [cbn [fst]; apply touch_scal|].
+    pose proof (empty_and_remove_scal (c_id x) st1) as E. destruct (empty_and_remove (c_id x) st1) as [st2 outs2]. cbn [fst] in E.
+    pose proof (cs_finish_scal c s st2) as F. destruct (cs_finish c s st2) as [st3 r]. cbn [fst] in *. congruence.
+  - pose proof (cs_finish_scal c s st1) as F. destruct (cs_finish c s st1) as [st3 r]. cbn [fst] in *. exact F.
+Qed.
+
+Lemma op_destroy_clientid_scal : forall c st, scal (fst (fst (op_destroy_clientid c st))) = scal (fst (enter st)).
+Proof. intros. unfold op_destroy_clientid, client_remove. destruct (enter st) as [st1 outs]. cbn [fst]. repeat break_match; reflexivity. Qed.
+
+Lemma op_destroy_session_scal : forall i st, scal (fst (fst (op_destroy_session i st))) = scal (fst (enter st)).
+Proof. intros. unfold op_destroy_session. destruct (enter st) as [st1 outs]. cbn [fst]. repeat break_match; reflexivity. Qed.
+
+Definition now_le_clock (st : state) : Prop := st_now st <= st_clock st.
+
+Lemma scal_inv : forall st st', scal st' = scal st -> now_le_clock st -> now_le_clock st'.
+Proof. intros st st' E H. unfold scal in E. inversion E. unfold now_le_clock in *. lia. Qed.
+
+Lemma after_enter_inv : forall st st', scal st' = scal (fst (enter st)) -> now_le_clock st -> now_le_clock st'.
+Proof.
+  intros st st' E H. rewrite enter_scal in E. unfold scal in E. inversion E. unfold now_le_clock in *. lia.
+Qed.
+
+Lemma solo_step_clock : forall tid s st, now_le_clock st -> now_le_clock (fst (solo_step tid s st)).
+Proof.
+  intros tid s st H. destruct s; cbn [solo_step]; try exact H.
+  - pose proof (op_exchange_id_scal owner verifier st) as E. destruct (op_exchange_id owner verifier st) as [[st1 o1] r]. cbn [fst] in *. eapply after_enter_inv; eauto.
+  - pose proof (op_create_session_scal clientid seq st) as E. destruct (op_create_session clientid seq st) as [[st1 o1] r]. cbn [fst] in *. eapply after_enter_inv; eauto.
+  - pose proof (op_destroy_session_scal id st) as E. destruct (op_destroy_session id st) as [[st1 o1] r]. cbn [fst] in *. eapply after_enter_inv; eauto.
+  - pose proof (op_destroy_clientid_scal id st) as E. destruct (op_destroy_clientid id st) as [[st1 o1] r]. cbn [fst] in *. eapply after_enter_inv; eauto.
+  - unfold op_bind_conn. destruct (negb dir_valid); cbn [fst]; [exact H|].
+    pose proof (enter_scal st) as E. destruct (enter st) as [st1 o1]. cbn [fst] in *.
+    destruct (find_session id (st_sessions st1)); cbn [fst]; eapply after_enter_inv; eauto; rewrite enter_scal; exact E.
+Qed.
+
+Lemma seq_begin_clock : forall tid sess sl sq cache ops st, now_le_clock st ->
+  now_le_clock (fst (seq_begin tid sess sl sq cache ops st)).
+Proof.
+  intros tid sess sl sq cache ops st H. eapply after_enter_inv; [|exact H].
+  unfold seq_begin, hold, set_slot. destruct (enter st) as [st1 outs]. cbn [fst]. repeat break_match; reflexivity.
+Qed.
+
+Lemma seq_end_clock : forall t st, now_le_clock st -> now_le_clock (fst (seq_end t st)).
+Proof.
+  intros t st H. eapply after_enter_inv; [|exact H].
+  unfold seq_end, release, set_slot. destruct (enter st) as [st1 outs]. cbn [fst]. repeat break_match; reflexivity.
+Qed.
+
+Lemma section_clock : forall tid orc st, now_le_clock st -> now_le_clock (fst (fst (section tid orc st))).
+Proof.
+  intros tid orc st H. unfold section. destruct (find_thread tid (st_threads st)) as [t|]; cbn [fst]; [|exact H].
+  destruct (t_ops t) as [|o rest].
+  - pose proof (seq_end_clock t st H) as G. destruct (seq_end t st). exact G.
+  - destruct (find_client (t_client t) (st_clients st)) as [c|]; cbn [fst]; [|exact H].
+    assert (G : now_le_clock (sr_st (op_section o (t_phase t) orc c st (t_cfh t) (t_sfh t)))).
+    { destruct (t_phase t) eqn:Hph;
+        try (eapply scal_inv; [apply op_section_scal; destruct o; try exact Logic.I; discriminate|exact H]).
+      destruct o; try (eapply scal_inv; [apply op_section_scal; exact Logic.I|exact H]); cbn [op_section].
+      - pose proof (op_exchange_id_scal owner verifier st) as E. destruct (op_exchange_id _ _ _) as [[st1 o1] r]. cbn [fst sr_st] in *. eapply after_enter_inv; eauto.
+      - pose proof (op_create_session_scal clientid seq st) as E. destruct (op_create_session _ _ _) as [[st1 o1] r]. cbn [fst sr_st] in *. eapply after_enter_inv; eauto.
+      - pose proof (op_destroy_session_scal id st) as E. destruct (op_destroy_session _ _) as [[st1 o1] r]. cbn [fst sr_st] in *. eapply after_enter_inv; eauto.
+      - pose proof (op_destroy_clientid_scal id st) as E. destruct (op_destroy_clientid _ _) as [[st1 o1] r]. cbn [fst sr_st] in *. eapply after_enter_inv; eauto. }
+    eapply scal_inv; [|exact G]. reflexivity.
+Qed.
+
+Lemma step_clock : forall st e, now_le_clock st -> now_le_clock (fst (step st e)).
+Proof.
+  intros st e H. destruct e; cbn [step].
+  - unfold now_le_clock in *. cbn. lia.
+  - apply solo_step_clock; exact H.
+  - destruct (tid_used tid st); [exact H|apply seq_begin_clock; exact H].
+  - pose proof (section_clock tid orc st H) as G. destruct (section tid orc st) as [[st1 o1] u]. exact G.
+Qed.
+
+Theorem reachable_now_le_clock : forall cfg c0 evs, now_le_clock (fst (run (init cfg c0) evs)).
+Proof.
+  intros cfg c0 evs.
+  assert (G : forall evs st, now_le_clock st -> now_le_clock (fst (run st evs))).
+  { induction evs0 as [|e tl IH]; intros st H; cbn [run]; [exact H|].
+    pose proof (step_clock st e H) as H1. destruct (step st e) as [st1 o1]. cbn [fst] in H1.
+    pose proof (IH st1 H1) as H2. destruct (run st1 tl) as [st2 o2]. exact H2. }
+  apply G. unfold now_le_clock. cbn. lia.
+Qed.
+
+(* In every reachable state enter() discards only incarnations that are not
+   held and whose lastSeen + lease lies before the reading of the INJECTED
+   CLOCK - the time base of the lease monitor (lm_clock). *)
+Theorem reachable_expiry_before_clock : forall cfg c0 evs id c,
+  let st := fst (run (init cfg c0) evs) in
+  cfind id st = Some c -> cfind id (fst (enter st)) = None ->
+  c_hold c = 0 /\ c_seen c + cf_lease (st_cfg st) < st_clock st /\ st_now (fst (enter st)) = st_clock st.
+Proof.
+  intros cfg c0 evs id c st Hc Hg. destruct (reachable_expiry_only_after_lease cfg c0 evs id c Hc Hg) as [A B].
+  pose proof (reachable_now_le_clock cfg c0 evs) as N. fold st in N, B. unfold now_le_clock in N.
+  rewrite enter_now in *. split; [exact A|]. split; lia.
+Qed.
